@@ -69,7 +69,7 @@ def witness : List ActW :=
   [.base (.submit 7 100), .base (.send 0), .base (.srvRecv 0), .base (.finish 0 0), .base (.respond 0),
    .base (.recv 0), .register]
 
-def cfg1 : Cfg := { nconn := 1, handler := fun x => .ok x }
+def cfg1 : Cfg := { nconn := 1, handler := fun x => .ok x, pendCap := 8, wireCap := 8, srvCap := 8, backCap := 8 }
 
 theorem window_loses_response :
     (Core.run (stepW cfg1) (initW cfg1) witness).map
